@@ -3,6 +3,7 @@ C02 — property theorems: nobody becomes owner (or gains a capability they are 
 through the bot's commands.
 -/
 import LimnoriaModel.C02.Lemmas
+import LimnoriaModel.C16.Order
 import LimnoriaModel.Gen.CapSites
 import LimnoriaModel.Gen.WrapSpecs
 namespace C02
@@ -877,6 +878,33 @@ theorem fileOrder_fileOwn {O : Nat → Prop} {st : St} (uo : List (Nat × List S
       rw [← e2] at ho
       exact hown _ (mem_ownersOf.mpr ⟨q.2, hq, mem_permCaps.mp ho⟩)
     · exact Or.inr hst
+
+/-- **for a storable saved file the order event is immaterial**: whatever orders the environment
+gives, the reload brings back every account of the file with exactly its capabilities, in the
+order given — the same sets as without the event (`C16.users_roundtrip_any_cap_order`).  Only in
+the states of finding C16-capability-inverse-pair can the event change what is loaded. -/
+theorem order_immaterial_when_storable (cfg : Cfg) (st : St) (uo : List (Nat × List Str)) (co : List (Str × List Str))
+    (db : C16.UsersDb) (hdb : st.usaved = some db) (hcu : st.cu = none)
+    (hst : C16.storableUsers (envOf cfg) (C16.sortedUsers db) = true) :
+    (reloadU cfg st).users = C16.sortedUsers db ∧
+    (reloadU cfg (st.fileOrder uo co)).users =
+      (C16.sortedUsers db).map (C16.withCaps (fun p => permCaps (C16.dictGet p.1 uo) p.2.caps)) := by
+  constructor
+  · unfold reloadU
+    simp only [hdb]
+    rw [reloadUsersFrom_users, hcu]
+    rw [C16.loadUsers_dumpUsers (envOf cfg) db hst]
+  · have e : (st.fileOrder uo co).usaved =
+        some { db with users := db.users.map (C16.withCaps (fun p => permCaps (C16.dictGet p.1 uo) p.2.caps)) } := by
+      unfold St.fileOrder
+      simp only [hdb, Option.map_some]
+      rfl
+    unfold reloadU
+    simp only [e]
+    rw [reloadUsersFrom_users]
+    have hcu' : (st.fileOrder uo co).cu = none := hcu
+    rw [hcu']
+    exact (C16.users_roundtrip_any_cap_order (envOf cfg) db _ (fun p _ => permCaps_perm _ _) hst).1
 
 /-- the hostmask an event comes from is one line (always true of a parsed IRC message) -/
 def Ev.prefixOk : Ev → Prop
